@@ -90,6 +90,7 @@ type wbuild struct {
 	ranBin  []string
 	curOpts InvOpts
 	dirInWay map[string]bool
+	diskBefore map[string]Listing
 	fs       *faultState
 	focus    string
 	load     string
